@@ -306,6 +306,10 @@ type http2FrameTracer struct {
 	frame        bytes.Buffer
 	expecting    uint32
 	actual       uint64
+	// inHeaderBlock is true after a HEADERS or CONTINUATION frame without
+	// END_HEADERS: the frames of the block accumulate in frame and are
+	// parsed together once the block is complete.
+	inHeaderBlock bool
 }
 
 func (h *http2FrameTracer) trace(data []byte) {
@@ -393,6 +397,14 @@ func (h *http2FrameTracer) traceFrameLocked(data []byte) (int, bool) {
 }
 
 func (h *http2FrameTracer) emitFrame() bool {
+	isHeaderBlock := h.header.Type == http2.FrameHeaders ||
+		(h.header.Type == http2.FrameContinuation && h.inHeaderBlock)
+	h.inHeaderBlock = isHeaderBlock && !h.header.Flags.Has(http2.FlagHeadersEndHeaders)
+	if h.inHeaderBlock {
+		// The header block goes on in CONTINUATION frames, which the
+		// framer must read together with this one.
+		return true
+	}
 	defer func() {
 		h.frame.Reset()
 	}()
